@@ -3,7 +3,7 @@ from .core import BASE_TRUST, LEAN, Problem
 
 META = {
     "category": "proof",
-    "text": "PARTIAL. Lean 4 proof of the access discipline (own-index with disjoint ranges / sole goroutine / common lock / synchronisation object / read-only => no data race in ANY interleaving of ANY fork-join execution, all n, all access lists) and of the partition GoroutineTaskManager.RecordRange as generated from the source on every run (disjoint, tiles [0,len) in order, all len, all n>0; plus the stride and partition index spaces); the access facts of every worker closure of lib/query are regenerated from /repo and checked by `decide` (consistent per location; no unguarded access outside the recorded F7 sites). TRUSTED, not proved: the step 'syntactic class => actual access pattern of the running program' (callees of the closures are not analysed) and the Go memory model; cross-checked on every run by the Go race detector over filter/join/group/order/distinct/analytic/DML/file-load workloads at @@CPU 2..8",
+    "text": "PARTIAL. Lean 4 proof of the access discipline (own-index with disjoint ranges / sole goroutine / common lock / synchronisation object / read-only => no data race in ANY interleaving of ANY fork-join execution, all n, all access lists) and of the partition GoroutineTaskManager.RecordRange as generated from the source on every run (disjoint, tiles [0,len) in order, all len, all n>0; plus the stride and partition index spaces); the access facts of every worker closure of lib/query are regenerated from /repo and checked by `decide` (theorems facts_ok, facts_consistent, manager_fields_locked: consistent per location, NO unguarded access; pre-finding F7 was repaired in /repo by commit bec97d6 and stays watched: a new unguarded access breaks facts_ok and is reported as race:<file>:<function>:<variable>). TRUSTED, not proved: the step 'syntactic class => actual access pattern of the running program' (callees of the closures are not analysed) and the Go memory model; cross-checked on every run by the Go race detector over filter/join/group/order/distinct/analytic/DML/file-load workloads at @@CPU 2..8",
     "design_ref": "DESIGN.md section 5, C13",
     "note": "trusted: Lean kernel (propext, Classical.choice, Quot.sound only), the extractor extract/parfacts (syntactic, go/types; refuses unknown constructs), the lockset definition of a race in Csvq/Model/ForkJoin.lean as a rendering of the Go memory model for fork-join regions, Go's race detector (finds only races that occur in the executed schedules), 64-bit overflow ignored in RecordRange",
     "technique": "Lean 4 machine-checked proof of a race-freedom discipline + facts regenerated from the Go source (go/ast, go/types) checked by kernel evaluation + dynamic cross-check with `go build -race`",
@@ -30,6 +30,7 @@ def site(f):
 def run(run):
     q = run.tier == "quick"
     run.assumptions += [
+        "F7 (HasError/Err without the mutex; pos/err shared by the loader goroutines) is fixed in /repo (bec97d6); the sites are still extracted, proved guarded/atomic/sole-goroutine on every run and exercised under the race detector",
         "TRUSTED: an access the extractor classifies ownIndex/guarded/chan/wg/readOnly really has that access pattern at run time (functions CALLED from the worker closures are not analysed; method calls on a shared receiver count as reads of it)",
         "TRUSTED: Go memory model; a data race is rendered as: two accesses of different goroutines of one fork-join region, same location, one a write, disjoint locksets, not both operations of a synchronisation object",
         "index space 'partition' (analytic functions): the row numbers a worker draws from its own partitions[...] element belong to that partition (proved: distinct partitions are disjoint, partitions_disjoint)",
